@@ -159,8 +159,12 @@ def run_case(spec, ctx):
         from vf import core as _core
         sub = _core.Ctx(ctx.prop, ctx.tier, ctx.seed, known=_core._NoKnown())
         D = D_orig
+        rest = {}
         if evaluated:
-            vals = {kk: torch.tensor(v[:1], dtype=torch.float32).reshape(1, -1) for kk, v in prows.items()} if k else \
+            # with two or more free variables only the first one is fixed: the snapshot still depends on the others
+            fixed = sorted(prows)[:1] if len(prows) >= 2 else sorted(prows)
+            rest = {kk: v for kk, v in prows.items() if kk not in fixed}
+            vals = {kk: torch.tensor(prows[kk][:1], dtype=torch.float32).reshape(1, -1) for kk in fixed} if k else \
                 {"p": torch.tensor([[0.5]])}
             try:
                 with warnings.catch_warnings():
@@ -170,12 +174,12 @@ def run_case(spec, ctx):
             except _core.CaseAborted:
                 ctx.event("evaluation-failed(C17)")
                 continue
-            classes.append("evaluated-boundary")
+            classes.append("evaluated-boundary" + ("-partial" if rest else ""))
         try:        # budgeted: a non-terminating / failing sampler is C01's business, not a hang here
             with warnings.catch_warnings():
                 warnings.simplefilter("ignore")
                 with sub.lib("sample"):
-                    P, pen = geo.lib_sample(D, how, spec["n"], {} if evaluated else prows)
+                    P, pen = geo.lib_sample(D, how, spec["n"], rest if evaluated else prows)
         except _core.CaseAborted:
             ctx.event("sampling-failed(C01):" + (sub.case_violations[0].signature.split("|")[0][:80] if sub.case_violations else "inconclusive"))
             continue
@@ -184,9 +188,20 @@ def run_case(spec, ctx):
             continue
         if evaluated:
             pen = {kk: np.repeat(np.asarray(v[:1], dtype=np.float32).astype(np.float64), len(P), axis=0) for kk, v in penv.items()} if k else {}
+            # a sibling snapshot of the same parent at another value, made between sampling and normal()
+            try:
+                with warnings.catch_warnings():
+                    warnings.simplefilter("ignore")
+                    with sub.lib("evaluate(sibling)"):
+                        D_orig(**{kk: 1.0 - v for kk, v in vals.items()})
+            except _core.CaseAborted:
+                pass
         env = build.points_env(P, pen)
         st = rg.status(E, env, tol["tol_b"])
-        params_rep = build.params_points({kk: np.asarray(v) for kk, v in pen.items()}) if k and not evaluated else Points.empty()
+        if evaluated:
+            params_rep = build.params_points({kk: np.asarray(pen[kk]) for kk in rest}) if rest else Points.empty()
+        else:
+            params_rep = build.params_points({kk: np.asarray(v) for kk, v in pen.items()}) if k else Points.empty()
         with ctx.lib("normal" + ("(evaluated boundary)" if evaluated else ""), feature=top):
             with warnings.catch_warnings():
                 warnings.simplefilter("ignore")
